@@ -279,3 +279,16 @@ func init() {
 	)
 }
 
+
+func init() {
+	addMutants(
+		Mutant{"C08", "c08-stateful-put-in-legs", "compiler/optimizer/parallelize.go", "Optimizer.concurrentPath",
+			"if hasAggExpr(op) {\n\t\t\t\t// An aggregate function in an expression carries state\n", "if false {\n\t\t\t\t// An aggregate function in an expression carries state\n", "C08-X1", "extends the concurrent path"},
+		Mutant{"C07", "c07-stateful-put-in-legs", "compiler/optimizer/parallelize.go", "Optimizer.concurrentPath",
+			"if hasAggExpr(op) {\n\t\t\t\t// An aggregate function in an expression carries state\n", "if false {\n\t\t\t\t// An aggregate function in an expression carries state\n", "C07-X1", "extends the concurrent path"},
+		Mutant{"C08", "c08-stateful-put-lifted", "compiler/optimizer/parallelize.go", "Optimizer.liftIntoParPaths",
+			"if hasAggExpr(op) {\n\t\t\t// An aggregate function in an expression carries state from\n", "if op == nil {\n\t\t\t// An aggregate function in an expression carries state from\n", "C08-X1", "multi-kind case"},
+		Mutant{"C07", "c07-agg-walk-skips-slices", "compiler/optimizer/parallelize.go", "containsAgg",
+			"if _, ok := v.Interface().(*dag.Agg); ok {\n\t\t\treturn true\n\t\t}\n", "", "C07-X1", "extends the concurrent path"},
+	)
+}
